@@ -1,5 +1,6 @@
 #![allow(dead_code, unused_imports, unused_variables)]
 mod codec;
+mod crash;
 mod crypto;
 mod cryptodiff;
 mod driver;
@@ -169,6 +170,12 @@ fn main() {
             0
         }
         "replay" => cmd_replay(&args),
+        "crash-child" => crash::child(&arg(&args, "--db").expect("--db"), arg_u64(&args, "--retention", 3)),
+        "crash" => {
+            let exe = std::env::current_exe().expect("exe").to_string_lossy().to_string();
+            println!("{}", crash::run(arg_u64(&args, "--rounds", 30) as usize, arg_u64(&args, "--seed", 1), &exe));
+            0
+        }
         "cryptodiff" => {
             let out = arg(&args, "--out").expect("--out");
             match cryptodiff::dump(&out, arg_u64(&args, "--seed", 1)) {
